@@ -19,7 +19,10 @@ describe(
     "is stored (checked by evaluating the extracted modulo / floor-division loop on all flat indices of a symbolic 2x3x4 table); that "
     "factor is the JOINT over exactly the requested variables (sum-elimination of the others, joint=True — not per-variable max-marginals, "
     "not max-elimination); every (variable, value) pair of the decoded assignment reaches the result and values are state NAMES; the "
-    "default for `variables` is all variables; overlap with evidence is rejected; belief propagation restores its model before decoding.",
+    "default for `variables` is all variables; overlap with evidence is rejected; belief propagation restores its model before decoding; "
+    "every remaining factor is multiplied into that joint once (no value-keyed set of factors); inference/model code never re-arranges "
+    "a factor's axes without its cardinalities (the decoder's radix); BayesianNetwork.predict issues ONE map_query over all missing "
+    "variables per distinct row.",
     ["that the maximised table is the exact posterior (numeric; C01 decides its structural conditions)", "ties"],
 )
 
